@@ -8,6 +8,16 @@
 #include <nstd/PoolList.hpp>
 #include <nstd/System.hpp>
 
+// Verification hook (add-only, inactive unless the build defines NSTD_VERIF and links a scheduler that provides
+// nv_yield): marks the plain volatile accesses of the pool as scheduling points of a controlled scheduler.
+#ifdef NSTD_VERIF
+#define NSTD_VERIF_FUTURE_HOOKS 1
+extern "C" void nv_yield(const char *kind, const volatile void *addr) __attribute__((weak));
+#define NSTD_VERIF_YIELD(kind, addr) ((void)(nv_yield ? (nv_yield(kind, addr), 0) : 0))
+#else
+#define NSTD_VERIF_YIELD(kind, addr) ((void)0)
+#endif
+
 class Future<void>::Private
 {
 public:
@@ -96,7 +106,9 @@ public:
 
       // adjust worker thread count
       usize pushedJobs = Atomic::increment(_pushedJobs);
+      NSTD_VERIF_YIELD("rd", &_processedJobs);
       ssize busyThreads = (ssize)(pushedJobs - _processedJobs);
+      NSTD_VERIF_YIELD("rd", &_threadCount);
       usize threadCount = _threadCount;
       ssize idleThreads = (ssize)threadCount - busyThreads;
       if (idleThreads == 1)
@@ -244,16 +256,19 @@ void Future<void>::set()
 
 void Future<void>::startProc(void (*proc)(void *), void *args)
 {
+  NSTD_VERIF_YIELD("rd", &Private::_threadPool);
   Private::ThreadPool *threadPool = Private::_threadPool;
   if (!threadPool)
   {
     while (Atomic::testAndSet(Private::_threadPoolLock) != 0)
       ;
+    NSTD_VERIF_YIELD("rd", &Private::_threadPool);
     if (!(threadPool = Private::_threadPool))
     {
       threadPool = new Private::ThreadPool;
       Atomic::swap(Private::_threadPool, threadPool);
     }
+    NSTD_VERIF_YIELD("wr", &Private::_threadPoolLock);
     Private::_threadPoolLock = 0;
   }
 
@@ -306,15 +321,18 @@ template <typename T>
 inline bool Future<void>::Private::LockFreeQueue<T>::push(const T &data)
 {
   Node *node;
+  NSTD_VERIF_YIELD("rd", &_tail);
   usize next, tail = _tail;
   for (;; tail = next)
   {
     node = &_queue[tail & _capacityMask];
+    NSTD_VERIF_YIELD("rd", &node->tail);
     if (node->tail != tail)
       return false;
     if ((next = Atomic::compareAndSwap(_tail, tail, tail + 1)) == tail)
       break;
   }
+  NSTD_VERIF_YIELD("wr", &node->data);
   new (&node->data) T(data);
   Atomic::swap(node->head, tail);
   return true;
@@ -324,15 +342,18 @@ template <typename T>
 inline bool Future<void>::Private::LockFreeQueue<T>::pop(T &result)
 {
   Node *node;
+  NSTD_VERIF_YIELD("rd", &_head);
   usize next, head = _head;
   for (;; head = next)
   {
     node = &_queue[head & _capacityMask];
+    NSTD_VERIF_YIELD("rd", &node->head);
     if (node->head != head)
       return false;
     if ((next = Atomic::compareAndSwap(_head, head, head + 1)) == head)
       break;
   }
+  NSTD_VERIF_YIELD("rd", &node->data);
   result = node->data;
   (&node->data)->~T();
   Atomic::swap(node->tail, head + _capacity);
@@ -350,6 +371,7 @@ void Future<void>::Private::FastSignal::reset()
   if (Atomic::swap(_state, 0) == 1)
   {
     _signal.reset();
+    NSTD_VERIF_YIELD("rd", &_state);
     if (Atomic::load(_state)) // a set() that completed after the swap above must not lose its wake-up to this reset
       _signal.set();
   }
@@ -357,6 +379,7 @@ void Future<void>::Private::FastSignal::reset()
 
 bool Future<void>::Private::FastSignal::wait()
 {
+  NSTD_VERIF_YIELD("rd", &_state);
   if (Atomic::load(_state))
     return true;
   return _signal.wait();
